@@ -132,7 +132,7 @@ SUBS = [
         strategy=s_stream,
         examples=(300, 6000),
         rule="see property rule",
-        need={"fault-inside-valid-frame": 1, "empty-read-inside-valid-frame": 1, "damaged": 1, "decoy:reserved-bits": 1, "decoy:lying-length": 1, "decoy:nested-ubx": 1, "delivered": 10},
+        need={"fault-inside-valid-frame": 1, "empty-read-inside-valid-frame": 1, "damaged": 1, "decoy:reserved-bits": 1, "decoy:lying-length": 1, "decoy:nested-ubx": 1, "decoy:jumbo-frame": 1, "delivered": 10},
         sample=_sample,
     ),
     __import__("pv.fuzz.campaign", fromlist=["make"]).make("C01", ("C01",)),
